@@ -20,7 +20,7 @@ CONSTANTS
   FormMenu = {"alloc", "detached"}
   DeliveryMenu <- MC_DeliveryMenu
   ExportMenu <- MC_ExportMenu
-  ShotSMenu <- NoSetups
+  ShotSMenu <- NoSetups2
   ShotRMenu <- NoSetups2
   MaxSeals = 3
   MaxOpens = 3
